@@ -39,6 +39,80 @@ fn at<T: ?Sized>(base: *const u8, t: &T) -> i64 {
     off(t as *const T as *const u8, base)
 }
 
+
+/// Iterator-protocol probe: every other route through the `Iterator` API (`nth`, `count`, `last`, `skip`, `step_by`,
+/// `size_hint`, clones taken mid-way) must agree with plain `next()`-draining. `mk` makes a fresh iterator, `key` renders an
+/// item as a comparable key (address or decoded fields). Returns what disagreed, or None. Only called when the plain drain
+/// ended normally with `n` items.
+fn probe<I, K>(mk: impl Fn() -> I, key: impl Fn(I::Item) -> K + Copy, n: usize, hint: bool) -> Option<String>
+where
+    I: Iterator + Clone,
+    K: PartialEq,
+{
+    if n > 512 {
+        return None;
+    }
+    let r = guarded(|| {
+        let refs: Vec<K> = mk().map(key).collect();
+        if refs.len() != n {
+            return Some(format!("collect:{}", refs.len()));
+        }
+        for k in 0..=n + 1 {
+            let got = mk().nth(k).map(key);
+            if got.as_ref() != refs.get(k) {
+                return Some(format!("nth({})", k));
+            }
+            let got = mk().skip(k).next().map(key);
+            if got.as_ref() != refs.get(k) {
+                return Some(format!("skip({})", k));
+            }
+        }
+        if mk().count() != n {
+            return Some("count".into());
+        }
+        if mk().last().map(key).as_ref() != refs.last() {
+            return Some("last".into());
+        }
+        for s in 1..=3usize {
+            let got: Vec<K> = mk().step_by(s).map(key).collect();
+            let want: Vec<&K> = refs.iter().step_by(s).collect();
+            if got.len() != want.len() || got.iter().zip(want.iter()).any(|(a, b)| a != *b) {
+                return Some(format!("step_by({})", s));
+            }
+        }
+        // (the ELF iterator reports the number of ENTRIES left, of which unused ones are skipped: its lower bound is not
+        // compared - the property says nothing about it)
+        let (lo, hi) = mk().size_hint();
+        if hint && (lo > n || hi.map(|h| h < n).unwrap_or(false)) {
+            return Some("size_hint".into());
+        }
+        // consecutive nth(0) calls behave like next(); nth after exhaustion stays None
+        let mut it = mk();
+        for k in 0..n {
+            if it.nth(0).map(key).as_ref() != refs.get(k) {
+                return Some(format!("nth0@{}", k));
+            }
+        }
+        if it.nth(0).is_some() || it.next().is_some() || it.nth(3).is_some() {
+            return Some("after-end".into());
+        }
+        // clones taken at every position continue with the remaining suffix
+        let mut it = mk();
+        for k in 0..=n {
+            let rest: Vec<K> = it.clone().map(key).collect();
+            if rest.len() != n - k || rest.iter().zip(refs[k..].iter()).any(|(a, b)| a != b) {
+                return Some(format!("clone@{}", k));
+            }
+            it.next();
+        }
+        None
+    });
+    match r {
+        Ok(x) => x,
+        Err(()) => Some("panic".into()),
+    }
+}
+
 /// getter wrapper: `-` none, `P` panic, `@off{...}`
 fn getter<'a, T: ?Sized + 'a>(
     out: &mut String,
@@ -65,6 +139,7 @@ pub fn sweep_bi(out: &mut String, base: *const u8, bi: &BootInformation) {
     out.push_str("tags=");
     {
         let mut it = bi.tags();
+        let mut n = 0usize;
         loop {
             match guarded(|| it.next()) {
                 Err(()) => {
@@ -72,10 +147,14 @@ pub fn sweep_bi(out: &mut String, base: *const u8, bi: &BootInformation) {
                     break;
                 }
                 Ok(None) => {
-                    out.push_str("|done");
+                    match probe(|| bi.tags(), |t| t as *const _ as *const u8 as usize, n, true) {
+                        None => out.push_str("|done"),
+                        Some(w) => write!(out, "|probe:{}", w).unwrap(),
+                    }
                     break;
                 }
                 Ok(Some(t)) => {
+                    n += 1;
                     let typ: u32 = t.header().typ.into();
                     write!(out, "{}:{}:{}:{},", at(base, t), typ, t.header().size, t.payload().len()).unwrap();
                 }
@@ -173,6 +252,7 @@ pub fn sweep_bi(out: &mut String, base: *const u8, bi: &BootInformation) {
         Err(()) => out.push('P'),
         Ok(mut it) => {
             out.push('[');
+            let mut n = 0usize;
             loop {
                 match guarded(|| it.next()) {
                     Err(()) => {
@@ -180,10 +260,14 @@ pub fn sweep_bi(out: &mut String, base: *const u8, bi: &BootInformation) {
                         break;
                     }
                     Ok(None) => {
-                        out.push_str("].");
+                        match probe(|| bi.module_tags(), |m| m as *const ModuleTag as *const u8 as usize, n, true) {
+                            None => out.push_str("]."),
+                            Some(w) => write!(out, "]?{}", w).unwrap(),
+                        }
                         break;
                     }
                     Ok(Some(m)) => {
+                        n += 1;
                         write!(out, "@{}:{}{{", at(base, m), std::mem::size_of_val(m)).unwrap();
                         fld!(out, "start", m.start_address());
                         fld!(out, "end", m.end_address());
@@ -225,7 +309,10 @@ pub fn sweep_bi(out: &mut String, base: *const u8, bi: &BootInformation) {
         match guarded(|| bi.elf_sections().map(|it| it.len())) {
             Err(()) => out.push('P'),
             Ok(None) => out.push('-'),
-            Ok(Some(n)) => write!(out, "{}", n).unwrap(),
+            Ok(Some(n)) => {
+                write!(out, "{}", n).unwrap();
+                elf_items(out, || bi.elf_sections().unwrap());
+            }
         }
         out.push(';');
     }
@@ -262,7 +349,10 @@ fn efi_mmap(o: &mut String, base: *const u8, t: &EFIMemoryMapTag) {
                         break;
                     }
                     Ok(None) => {
-                        write!(o, "].rem={}", guarded(|| rem(&it)).unwrap_or_else(|_| "P".into())).unwrap();
+                        match probe(|| t.memory_areas(), |d| d as *const _ as *const u8 as usize, n, true) {
+                            None => write!(o, "].rem={}", guarded(|| rem(&it)).unwrap_or_else(|_| "P".into())).unwrap(),
+                            Some(w) => write!(o, "]?{}", w).unwrap(),
+                        }
                         break;
                     }
                     Ok(Some(d)) => {
@@ -291,6 +381,51 @@ fn efi_mmap(o: &mut String, base: *const u8, t: &EFIMemoryMapTag) {
     o.push(',');
 }
 
+type ElfKey = (u32, u64, u64, u64, u64);
+fn elf_key(s: ElfSection) -> ElfKey {
+    (s.section_type_raw(), s.flags().bits(), s.start_address(), s.size(), s.addralign())
+}
+
+/// drains an ELF section iterator: `[{..}{..}].` / `]!` (panic) / `]?what` (iterator-protocol probe disagrees)
+fn elf_items<'a>(o: &mut String, mk: impl Fn() -> ElfSectionIter<'a>) {
+    let mut it = mk();
+    o.push('[');
+    let mut n = 0usize;
+    loop {
+        match guarded(|| it.next()) {
+            Err(()) => {
+                o.push_str("]!");
+                break;
+            }
+            Ok(None) => {
+                match probe(&mk, elf_key, n, false) {
+                    None => o.push_str("]."),
+                    Some(w) => write!(o, "]?{}", w).unwrap(),
+                }
+                break;
+            }
+            Ok(Some(s)) => {
+                o.push('{');
+                fld!(o, "type", s.section_type() as u32);
+                fld!(o, "raw", s.section_type_raw());
+                fld!(o, "flags", s.flags().bits());
+                fld!(o, "start", s.start_address());
+                fld!(o, "end", s.end_address());
+                fld!(o, "size", s.size());
+                fld!(o, "align", s.addralign());
+                fld!(o, "alloc", s.is_allocated());
+                write!(o, "rem={}", it.len()).unwrap();
+                o.push('}');
+                n += 1;
+                if n > 100000 {
+                    o.push_str("]runaway");
+                    break;
+                }
+            }
+        }
+    }
+}
+
 fn elf(o: &mut String, _base: *const u8, t: &ElfSectionsTag) {
     fld!(o, "num", t.number_of_sections());
     fld!(o, "entsize", t.entry_size());
@@ -298,40 +433,7 @@ fn elf(o: &mut String, _base: *const u8, t: &ElfSectionsTag) {
     o.push_str("sections=");
     match guarded(|| t.sections()) {
         Err(()) => o.push('P'),
-        Ok(mut it) => {
-            o.push('[');
-            let mut n = 0usize;
-            loop {
-                match guarded(|| it.next()) {
-                    Err(()) => {
-                        o.push_str("]!");
-                        break;
-                    }
-                    Ok(None) => {
-                        o.push_str("].");
-                        break;
-                    }
-                    Ok(Some(s)) => {
-                        o.push('{');
-                        fld!(o, "type", s.section_type() as u32);
-                        fld!(o, "raw", s.section_type_raw());
-                        fld!(o, "flags", s.flags().bits());
-                        fld!(o, "start", s.start_address());
-                        fld!(o, "end", s.end_address());
-                        fld!(o, "size", s.size());
-                        fld!(o, "align", s.addralign());
-                        fld!(o, "alloc", s.is_allocated());
-                        write!(o, "rem={}", it.len()).unwrap();
-                        o.push('}');
-                        n += 1;
-                        if n > 100000 {
-                            o.push_str("]runaway");
-                            break;
-                        }
-                    }
-                }
-            }
-        }
+        Ok(_) => elf_items(o, || t.sections()),
     }
     o.push(',');
 }
